@@ -60,7 +60,8 @@ def gen_random_script(rng, prop, long=False):
     elif r < 0.7:
         win = [1, 0]            # almost always open, edges at 00:00/00:01
     cfg = dict(fps=fps, preview=preview, trig=trig, min=mn, max=mx, const=const, win=win,
-               shadow=(prop == "C17"), resx=rng.choice([3, 4, 5]), resy=rng.choice([3, 4]))
+               shadow=(prop == "C17"), resx=rng.choice([3, 4, 5]), resy=rng.choice([3, 4]),
+               thr=rng.random() < 0.35)        # behind the real ThrottledRecorder with an inexhaustible budget
     N, MinF, MaxF = preview * fps + trig, mn * fps, mx * fps
     steps = []
     n = rng.randint(30, 120) if not long else rng.randint(150, 400)
@@ -335,6 +336,35 @@ def run(ctx, only_scripts=None):
                 seen.add(v["key"])
                 violations.append(v)
         stats["e2e_runs_with_overlapping_test_recordings"] = len(e2e_runs)
+        # the storage layer behind a throttle that really throttles: real MotionProcessor -> real ThrottledRecorder ->
+        # scripted storage with failing starts and stops (cuts, mid-trigger restarts); ThrMon.tla's pairing clauses
+        import fam_throttle
+        tscripts = [dict(fam_throttle.gen_proc(ctx.rng), origin="proc") for _ in range(60 if tier == "quick" else 800)]
+        ttrace = fam_throttle.drive(ctx, tscripts, "c12thr")
+        tviol, tnev = fam_throttle.judge(ctx, ttrace, "c12thrmon")
+        tev = vlib.read_ndjson(ttrace)
+        for (line, tags) in tviol:
+            for t in tags:
+                if t in ("C06:unexpected-base-call", "C06:pairing-start-while-open", "C06:pairing-write-while-closed",
+                         "C06:pairing-call-while-closed", "ANY:throttle-panicked"):
+                    key = "C12:storage-calls-unpaired-behind-throttle[%s]" % t.split(":")[1]
+                    if key not in seen:
+                        seen.add(key)
+                        rp = vlib.save_replay(ctx, key.replace(":", "_").replace("[", "_").replace("]", ""), dict(family="proc", property="C12", clause=key, observed=tev[line - 1]))
+                        violations.append(dict(key=key, replay=rp, what=json.dumps(tev[line - 1])[:300]))
+        stats["throttled_composition_events"] = tnev
+    if prop == "C04" and only_scripts is None:
+        import fam_e2e
+        binp = ctx.go_test_build("./cmd/thermal-recorder", "tr.test")
+        wruns = fam_e2e.c04_window_runs(ctx, binp)
+        for v in fam_e2e.judge_c11(ctx, wruns, binp):
+            if v["key"].startswith("C11:e2e-"):
+                continue
+            v["key"] = v["key"].replace("C11:settings-do-not-shape-files", "C04:end-to-end-window").replace("C11:", "C04:")
+            if v["key"].startswith("C04:") and v["key"] not in seen:
+                seen.add(v["key"])
+                violations.append(v)
+        stats["e2e_runs_with_configured_window"] = len(wruns)
     if prop == "C03" and only_scripts is None:
         cv, cstats = config_lengths(ctx, tier)
         violations += [v for v in cv if v["key"] not in seen]
